@@ -50,8 +50,10 @@ impl Property for C01 {
         "stateful model-based: generated histories (all call shapes, payloads 0..320 KiB so that 128 KiB WAL \
          files roll over and are garbage-collected, future truncations, delete+re-create, unusual names, any \
          persist policy, changed at restarts) with Restart ops at generated points and one forced final restart; \
-         oracle = reference model: observe(before drop) == observe(after open) == model (queues, positions, \
-         payload bytes, next position), then append(None) on every queue must return the model's next position. \
+         oracle (model-free): observe(before drop) == observe(after open) (queues, positions, payload bytes, next \
+         position, through the public read API), re-open must succeed, then append(None) on every queue must return \
+         last_position+1 as seen after the restart. The reference model only resolves the generated selectors; a live \
+         call that diverges from it makes the case 'skipped' (that is C05's concern), never a C01 violation. \
          evaluations = restarts checked. non-trivial = history with a restart that happens after >= 1 WAL file \
          was unlinked, or while a queue is empty with next > 0, or after a delete+re-create; distinct = hash of \
          the concrete op list."
@@ -96,12 +98,20 @@ impl Property for C01 {
         for sop in &ops {
             let cop = exec.resolve(sop);
             let is_restart = matches!(cop, COp::Restart { .. });
-            if is_restart {
-                // state right before the drop
-                exec.check_state("before drop")?;
-            }
+            let before = if is_restart {
+                // state right before the drop, as the real log shows it (no model involved)
+                match exec.driver.observe() {
+                    Ok(state) => Some(state),
+                    Err(_) => return Err(CaseError::Skip("live-state-unobservable".to_string())),
+                }
+            } else {
+                None
+            };
             let step = exec.step_concrete(cop)?;
-            exec.check_outcome(&step)?;
+            if !is_restart {
+                // live calls that diverge from the model are C05's concern
+                exec.conform_or_skip(&step)?;
+            }
             for effect in &exec.effects()[step.effects.clone()] {
                 match effect {
                     Effect::Unlink { .. } => flags.unlinks += 1,
@@ -123,7 +133,23 @@ impl Property for C01 {
             if is_restart {
                 flags.restarts += 1;
                 env.evals(1);
-                exec.check_state("after restart")?;
+                if step.real.outcome != Outcome::Restarted {
+                    return Err(exec.failure(
+                        format!("op #{} restart: re-opening the cleanly dropped log failed: {:?}", step.idx, step.real.outcome),
+                        "reopen-failed",
+                        json!({}),
+                    ));
+                }
+                let after = exec.driver.observe().map_err(|msg| {
+                    exec.failure(format!("op #{} restart: {msg}", step.idx), "observe-failed-after-restart", json!({}))
+                })?;
+                if let Some(diff) = crate::model::diff_states(before.as_ref().unwrap(), &after) {
+                    return Err(exec.failure(
+                        format!("op #{} restart: the state after re-opening differs from the state before the drop: {diff}", step.idx),
+                        "restart-changes-state",
+                        json!({}),
+                    ));
+                }
                 if flags.unlinks > 0 {
                     flags.restart_after_unlink = true;
                 }
@@ -145,10 +171,12 @@ impl Property for C01 {
         exec.selfcheck_image(&Image::default())?;
         // probe: append(None) on every queue returns the model's next position
         let names: Vec<QName> = exec.model.names.values().cloned().collect();
-        exec.step_concrete(COp::Restart { policy: None })
-            .and_then(|step| exec.check_outcome(&step))?;
+        let step = exec.step_concrete(COp::Restart { policy: None })?;
+        exec.usable_or_skip(&step)?;
+        let observed = exec.driver.observe().map_err(|_| CaseError::Skip("live-state-unobservable".to_string()))?;
         for name in names {
-            let next = exec.model.queues[&name.text()].next;
+            // the next position as the real log shows it after the restart
+            let Some(next) = observed.get(&name.text()).map(|queue| queue.next) else { continue };
             let step = exec.step_concrete(COp::Append {
                 q: name.clone(),
                 pos: None,
@@ -158,7 +186,6 @@ impl Property for C01 {
                     style: 0,
                 }],
             })?;
-            exec.check_outcome(&step)?;
             if step.real.outcome != (Outcome::Appended { last: Some(next) }) {
                 return Err(exec.failure(
                     format!(
@@ -171,7 +198,6 @@ impl Property for C01 {
                 ));
             }
         }
-        exec.check_state("after probe appends")?;
         env.class_n("restarts", flags.restarts);
         env.class_n("files-unlinked", flags.unlinks);
         env.class_n("files-created", flags.rollovers);
